@@ -59,15 +59,16 @@ class Block:
         :type network: str, Network
         """
 
-        self.block_hash = to_bytes(block_hash)
+        # Header fields provided as bytes are used as they are, only strings are read as hexadecimal
+        self.block_hash = block_hash if isinstance(block_hash, bytes) else to_bytes(block_hash)
         if isinstance(version, int):
             self.version = version.to_bytes(4, byteorder='big')
             self.version_int = version
         else:
-            self.version = to_bytes(version)
+            self.version = version if isinstance(version, bytes) else to_bytes(version)
             self.version_int = 0 if not self.version else int.from_bytes(self.version, 'big')
-        self.prev_block = to_bytes(prev_block)
-        self.merkle_root = to_bytes(merkle_root)
+        self.prev_block = prev_block if isinstance(prev_block, bytes) else to_bytes(prev_block)
+        self.merkle_root = merkle_root if isinstance(merkle_root, bytes) else to_bytes(merkle_root)
         self.time = time
         if not isinstance(time, int):
             self.time = int.from_bytes(time, 'big')
@@ -75,13 +76,13 @@ class Block:
             self.bits = bits.to_bytes(4, 'big')
             self.bits_int = bits
         else:
-            self.bits = to_bytes(bits)
+            self.bits = bits if isinstance(bits, bytes) else to_bytes(bits)
             self.bits_int = 0 if not self.bits else int.from_bytes(self.bits, 'big')
         if isinstance(nonce, int):
             self.nonce = nonce.to_bytes(4, 'big')
             self.nonce_int = nonce
         else:
-            self.nonce = to_bytes(nonce)
+            self.nonce = nonce if isinstance(nonce, bytes) else to_bytes(nonce)
             self.nonce_int = 0 if not self.nonce else int.from_bytes(self.nonce, 'big')
         self.transactions = transactions
         self.transactions_dict = []
